@@ -13,8 +13,8 @@ CHECKS = {
             "DESIGN.md 4/C04",
             "A transport failure is injected at every recorded step of each seeded base schedule (sampled in quick) and the wire of all connections is judged by the per-operation automaton.",
             "facade plumbing, reference codec/broker; positions are those of the generated schedules"),
-    "C05": ("exploration", "runtime monitoring: reference receiver model (FIFO ack obligations, QoS2 id set) over simulated inbound traffic",
-            "DESIGN.md 4/C05", "Inbound PUBLISH/PUBREL sequences from the reference broker; packet events and acks on the wire are compared with a reference receiver.", "facade plumbing, reference codec/broker"),
+    "C05": ("exploration", "runtime monitoring: reference receiver model (FIFO ack obligations, QoS2 id set) over simulated inbound traffic, at the engine and again at the client implementation's listener boundary",
+            "DESIGN.md 4/C05", "Inbound PUBLISH/PUBREL sequences from the reference broker; packet events and acks on the wire are compared with a reference receiver; the same comparison is made on what MqttClientImpl hands to listeners when reads carry several packets and some fail.", "facade plumbing, reference codec/broker"),
     "C06": ("exploration", "runtime monitoring: id-in-use table over the decoded wire + reserved-id count at quiescence, incl. >65535-operation runs",
             "DESIGN.md 4/C06", "Packet ids on the wire are tracked per session; leak check at quiescence; long runs cross the 16-bit wrap.", "facade plumbing, reference codec/broker"),
     "C07": ("exploration", "runtime monitoring: per-connection handshake automaton + expected CONNECT + expected negotiated settings",
